@@ -56,7 +56,7 @@ func (n *hNotifier01) Notify(ctx context.Context, as ...*alert.Alert) (bool, err
 // recorded and the unchanged group stays quiet until repeat_interval.
 //
 //vf:quick unwind=16 decisions=300 goroutines=6 preempt=1
-//vf:thorough unwind=16 decisions=400 goroutines=6 preempt=2
+//vf:thorough unwind=16 decisions=400 goroutines=6 preempt=1
 //vf:expect reach=retried-next-interval reach=quiet-after-success
 func VerifC01_FailureNeverDischarges() {
 	l, err := nflog.New(nflog.Options{Retention: 100 * time.Hour, Metrics: prometheus.NewRegistry()})
@@ -153,7 +153,7 @@ func (n *hSlow01) Notify(ctx context.Context, as ...*alert.Alert) (bool, error) 
 // failure iff the sibling failed.
 //
 //vf:quick unwind=16 decisions=400 goroutines=8 preempt=1 paths=400000
-//vf:thorough unwind=16 decisions=600 goroutines=8 preempt=2 paths=4000000
+//vf:thorough unwind=16 decisions=600 goroutines=8 preempt=1 paths=4000000
 //vf:expect reach=sibling-failed reach=sibling-ok reach=retried
 func VerifC01_SiblingIndependence() {
 	l, err := nflog.New(nflog.Options{Retention: 100 * time.Hour, Metrics: prometheus.NewRegistry()})
